@@ -69,6 +69,14 @@ CHECKS = {
          "attributes are compared by coordinates with Parse(file).",
     technique="TLA+ spec (TextFormat.tla) model-checked with TLC; generated literal files read by verif.input.Text and compared with the spec's Parse",
     ref="6/C09"),
+ "C10": dict(
+    text="NcFormat.tla gives the documented NetCDF layout as a relation NcParse(file) = Input (the same record as TextFormat!Parse), "
+         "DecodeNc for _FillValue / masked / -999 / NaN / >1e30, an encoder and the RoundTrip lemma NcParse(EncodeNc(I)) = I checked by "
+         "TLC for every generated Input x encoding x dimension order; both literal files are written by the harness' own writers "
+         "(with swapped file-name extensions), read with verif.input.get_input and compared by coordinates with the expected Input; "
+         "scripts/text2nc.py is run on the text file and its output compared variable by variable.",
+    technique="TLA+ spec (NcFormat.tla + TextFormat.tla) model-checked with TLC; generated text/NetCDF file pairs read by verif.input and text2nc output compared with the spec's Input",
+    ref="6/C10"),
  "C05": dict(
     text="Metrics.tla transcribes the textbook definition of 22 deterministic scores (and Aggregators.tla the 14 -agg statistics plus "
          "quantile levels) as expression trees over exact rationals, with explicit undefined cases; TLC enumerates every obs/fcst vector "
